@@ -109,7 +109,7 @@ func c14RunCase(c *c14Case) (map[string]any, error) {
 		stmux = tmuxNormalMode
 	}
 	srvDone := make(chan error, 1)
-	go func() { srvDone <- recvFiles(st, args, stmux, 0) }()
+	go func() { srvDone <- recvFiles(st, args, stmux, int32(c14I(c.Args, "swidth"))) }()
 	hsDone := make(chan struct{})
 	go func() { r.handshake(); close(hsDone) }()
 
